@@ -10,7 +10,8 @@ EXPLANATION = ("Structural necessary conditions only: Identity::self_signed = bu
                "&PKCS_ECDSA_P256_SHA256 and passes sans / not_before / not_after unchanged into CertificateParams; PEM tags are CERTIFICATE / PRIVATE KEY "
                "and to_pem encodes der()/secret_der() unchanged; every Certificate is constructed behind X509 parsing (from_der), from rustls "
                "(already-parsed peer certs) or from rcgen; digest formatter and parser agree per format (lower-hex joined by ':' <-> split ':' radix 16; "
-               "{:?} of [u8;32] <-> trim '[' ']' split ',' decimal u8; length via try_into::<[u8;32]>; FromStr tries both); the parsers / loaders "
+               "{:?} of [u8;32] <-> trim '[' ']' split ',' decimal u8; in the whole parser family (function, closures, helpers) no truncating / skipping adaptor "
+               "sits between the split and the element parser and Ok is reached only after a successful Vec<u8> -> [u8;32] conversion; FromStr tries both); the parsers / loaders "
                "contain no undischarged panic obligation.")
 NOT_DECIDED = ["the round-trip equalities themselves (value-level)", "rcgen / x509-parser / pem crate behaviour", "file I/O"]
 TRUSTED = ["rustc MIR", "rcgen CertificateParams semantics", "pem::encode / rustls_pki_types PEM parsing"]
